@@ -103,13 +103,25 @@ def run(pid, tier, seed, replay=None):
             path = save_replay(pid, {"property": pid, "monitor": v, "signature": sig, "engine": "spawn",
                                      "scenario": sc, "trace": [json.loads(x) for x in b]})
             new.append(("%s fired in launch %s (%s)" % (v, r["id"], sig), path))
+    extra_traces = 0
+    if pid == "C08" and replay is None and not damaged:
+        # every stage of a pipeline, under every terminator (incl. capture()'s stderr pipe)
+        from . import api_scen, c_api
+        pscs = api_scen.fam_pipelines(seed, tier == "thorough")[::(1 if tier == "thorough" else 2)]
+        presults, pstates, pblocks, pnote = c_api.run_api(pid, tier, seed, pscs, "C08pl")
+        pnew, pknown, pothers, _, _ = c_api.classify(pid, pscs, presults, pblocks, "C08_", "api")
+        new.extend(pnew)
+        known_hits.update(pknown)
+        tv_states += pstates
+        extra_traces = len(presults)
+        note += "; " + pnote
     samples = [{"scenario": by_id[i], "trace_head": [json.loads(x) for x in blk[i][1:10]]} for i in list(blk)[:2]]
     cov = {
         "states": max(1, sum(m["distinct"] for m in mc) + tv_states),
         "transitions": max(1, sum(m["states"] for m in mc) + tv_states),
-        "traces_validated_against_impl": len(results),
+        "traces_validated_against_impl": len(results) + extra_traces,
         "samples": samples,
-        "evaluations": len(results),
+        "evaluations": len(results) + extra_traces,
         "distinct_nontrivial": len(nontrivial),
         "rule": "one evaluation = one launch scenario executed with the real Popen::create on the real kernel and "
                 "validated by TLC against SpawnTrace.tla; non-trivial = the launch got as far as fork()",
